@@ -588,7 +588,7 @@ func (c *Ctx) loginStamps(refresh *ssa.Function, last string) {
 				ok = true
 			}
 		}
-		if len(evs) == 0 && pkgOf(s.Fn) == "ab/remember" {
+		if (len(evs) == 0 || !ok) && pkgOf(s.Fn) == "ab/remember" {
 			r.Info("C09.login-stamp", name, "PutSession(uid)", pos, "issues a session without firing any After event (remember cookie login: documented upstream as incompatible with the expire middleware)")
 			continue
 		}
